@@ -18,4 +18,10 @@ with open(os.path.join(HERE, "seeded", "README.md"), "w") as f:
     f.write("| seeded change | property | caught by (quick tier) | checks run | demo exit with / without |\n|---|---|---|---|---|\n")
     for r in rows:
         f.write("| %s | %s | %s | %s | %s / %s |\n" % (r[0], r[1], r[2], r[3], r[4], r[5]))
-print(open(os.path.join(HERE, "seeded", "README.md")).read())
+    missed = [(os.path.basename(os.path.dirname(m)), json.load(open(m)).get("not_caught_reason")) for m in sorted(glob.glob(os.path.join(HERE, "seeded", "*", "meta.json")))]
+    missed = [x for x in missed if x[1]]
+    if missed:
+        f.write("\n## Not caught, and why\n\n")
+        for n, why in missed:
+            f.write("* `%s` - %s\n" % (n, why))
+print("%d changes, %d caught" % (len(rows), sum(1 for r in rows if r[2] != "NONE")))
